@@ -315,7 +315,9 @@ fn check(case: &Case) -> Verdict {
     }
     // (f) commutes with a rigid motion of mesh and plane together
     let iso = case.t.to_iso();
-    let mut moved = bm.mesh(false);
+    // the object that has just been sectioned and split is the one that is moved (a clone of it: whatever it remembers
+    // from the earlier queries travels with it)
+    let mut moved = mesh.clone();
     moved.transform(&iso);
     let mplane = plane.transform_by(&iso);
     let mcurves = match section_of(&moved, &mplane, curve_tol) {
@@ -463,7 +465,9 @@ fn check_exact(mut cx: Ctx, case: &Case, bm: &BuiltMesh, soup: &Soup, n: crate::
     }
     // moving mesh and plane together changes neither the number of curves nor their total length
     let iso = case.t.to_iso();
-    let mut moved = bm.mesh(false);
+    // the object that has just been sectioned and split is the one that is moved (a clone of it: whatever it remembers
+    // from the earlier queries travels with it)
+    let mut moved = mesh.clone();
     moved.transform(&iso);
     let mplane = plane.transform_by(&iso);
     let mcurves = match section_of(&moved, &mplane, curve_tol) {
